@@ -196,10 +196,15 @@ func NewSingleHostReverseProxy(target *url.URL, without string, keepalive int, t
 				prefer(target.Opaque, target.Path),
 				prefer(req.URL.Opaque, req.URL.Path))
 		}
+		//
+		// The encoded form of a URL without RawPath is not its Path (which
+		// may hold characters that need escaping) but EscapedPath(), which
+		// also falls back to the escaped Path when RawPath is no longer an
+		// encoding of Path (the `without` prefix matched only one of them).
 		if req.URL.RawPath != "" || target.RawPath != "" {
 			req.URL.RawPath = singleJoiningSlash(
-				prefer(target.RawPath, target.Path),
-				prefer(req.URL.RawPath, req.URL.Path))
+				target.EscapedPath(),
+				req.URL.EscapedPath())
 		}
 		req.URL.Path = singleJoiningSlash(target.Path, req.URL.Path)
 
